@@ -714,7 +714,102 @@ def rule_memo_reset(model):
     return r
 
 
-RULES = [rule_memo_reset, rule_inplace_accumulators, rule_memo_immutable, rule_hidden_state, rule_recook, rule_getstate, rule_file,
+_MUTATORS = {'append', 'extend', 'insert', 'update', 'setdefault', 'pop',
+             'popitem', 'clear', 'remove', 'add', 'discard', 'sort',
+             'reverse', '__setitem__', '__delitem__', 'appendleft'}
+
+
+def _module_state_writes(mod):
+    """(function, node, name) for every store into / mutation of a
+    module-level name from inside a function of the module (including
+    closures built by module-level decorator helpers)."""
+    glob = set()
+    for st in mod.tree.body:
+        tg = []
+        if isinstance(st, ast.Assign):
+            tg = st.targets
+        elif isinstance(st, ast.AnnAssign):
+            tg = [st.target]
+        for t in tg:
+            for x in ast.walk(t):
+                if isinstance(x, ast.Name):
+                    glob.add(x.id)
+    out = []
+    for fi in mod.funcs.values():
+        locs = set(fi.params())
+        declared = set()
+        f = fi
+        while f is not None:
+            for n in own_nodes(f.node):
+                if isinstance(n, ast.Name) and isinstance(n.ctx, ast.Store):
+                    locs.add(n.id)
+                if isinstance(n, ast.Global) and f is fi:
+                    declared |= set(n.names)
+            locs |= set(f.params())
+            f = f.parent
+        locs -= declared
+        for n in own_nodes(fi.node):
+            names = []
+            if isinstance(n, (ast.Assign, ast.Delete, ast.AugAssign)):
+                tg = n.targets if not isinstance(n, ast.AugAssign) \
+                    else [n.target]
+                for t in tg:
+                    if isinstance(t, ast.Subscript) and isinstance(
+                            t.value, ast.Name):
+                        names.append(t.value.id)
+                    if isinstance(t, ast.Name) and t.id in declared:
+                        names.append(t.id)
+            if isinstance(n, ast.Call) and isinstance(
+                    n.func, ast.Attribute) and n.func.attr in _MUTATORS \
+                    and isinstance(n.func.value, ast.Name):
+                names.append(n.func.value.id)
+            for nm in names:
+                if nm in glob and nm not in locs:
+                    out.append((fi, n, nm))
+    return out
+
+
+def rule_no_module_memo(model):
+    r = RuleResult('C17.R12', 'the package keeps no state at module level '
+                   'that compiling or rendering writes: no function stores '
+                   'into or mutates a module-level container (a parse / '
+                   'result memo shared by all templates makes what one '
+                   'template compiles or renders depend on which other '
+                   'template or value came first)')
+    n = 0
+    for mod in model.modules.values():
+        for fi, node, nm in _module_state_writes(mod):
+            n += 1
+            r.instance(fi.where, node, 'MODULE STATE WRITTEN')
+            r.finding(fi.where, node, f'the module-level `{nm}` is written '
+                      f'by {fi.name}(): it outlives the template and is '
+                      'shared by every template, thread and rendering -- '
+                      'what is remembered for one (keyed by source text / '
+                      'value only) is handed to another whose encoding, '
+                      'format, guard or taint differs', node=node, ctx=fi)
+    # zero instances on the pinned tree: a synthetic positive must match
+    from ..model import Model
+    ctl_src = ('_memo = {}\n_n = 0\n'
+               'def parse(a):\n'
+               '    global _n\n'
+               '    _n = _n + 1\n'
+               '    local = {}\n'
+               '    local[a] = 1\n'
+               '    _memo[a] = local\n'
+               '    return _memo.setdefault(a, 2)\n')
+    cm = Model(sources={'src/DocumentTemplate/zz_memo_control.py': ctl_src},
+               root=None)
+    mi = cm.modules['zz_memo_control']
+    got = sorted(nm for _, _, nm in _module_state_writes(mi))
+    r.control('control: a synthetic module memo is recognised (3 writes)',
+              got == ['_memo', '_memo', '_n'])
+    if got != ['_memo', '_memo', '_n']:
+        raise AnalysisError(f'C17.R12: control failed ({got})')
+    return r
+
+
+RULES = [rule_memo_reset, rule_no_module_memo, rule_inplace_accumulators,
+         rule_memo_immutable, rule_hidden_state, rule_recook, rule_getstate, rule_file,
          rule_caller_data, rule_defaults, rule_munge, rule_one_shot]
 EXPLANATION = (
     'Enumeration of attribute / item stores and container mutations in '
